@@ -42,6 +42,11 @@ impl MioTcpListener {
                 r is Err ==> final(self).registered() == old(self).registered() && final(self).reg_token() == old(self).reg_token(),
     { unimplemented!() }
     #[verifier::external_body]
+    pub fn reregister(&mut self, registry: &Registry, token: Token, interests: Interest) -> (r: io::Result<()>)
+        ensures r is Ok ==> final(self).registered() && final(self).reg_token() == token.0,
+                r is Err ==> final(self).registered() == old(self).registered() && final(self).reg_token() == old(self).reg_token(),
+    { unimplemented!() }
+    #[verifier::external_body]
     pub fn deregister(&mut self, registry: &Registry) -> (r: io::Result<()>)
         ensures r is Ok ==> !final(self).registered(),
                 r is Err ==> final(self).registered() == old(self).registered(),
@@ -54,6 +59,11 @@ impl MioUnixListener {
     pub uninterp spec fn reg_token(&self) -> usize;
     #[verifier::external_body]
     pub fn register(&mut self, registry: &Registry, token: Token, interests: Interest) -> (r: io::Result<()>)
+        ensures r is Ok ==> final(self).registered() && final(self).reg_token() == token.0,
+                r is Err ==> final(self).registered() == old(self).registered() && final(self).reg_token() == old(self).reg_token(),
+    { unimplemented!() }
+    #[verifier::external_body]
+    pub fn reregister(&mut self, registry: &Registry, token: Token, interests: Interest) -> (r: io::Result<()>)
         ensures r is Ok ==> final(self).registered() && final(self).reg_token() == token.0,
                 r is Err ==> final(self).registered() == old(self).registered() && final(self).reg_token() == old(self).reg_token(),
     { unimplemented!() }
@@ -119,6 +129,14 @@ impl MioListener {
     ensures
         // both kinds of listener are registered under the given token   [C05]
         r is Ok ==> final(self).registered() && final(self).reg_token() == token.0,
+        r is Err ==> final(self).registered() == old(self).registered(),
+        (*final(self) is Tcp) == (*old(self) is Tcp),
+//@end
+
+//@extract file=actix-server/src/socket.rs item="impl Source for MioListener / fn reregister" ret=r props=C05 name=socket::reregister
+//@spec
+    ensures
+        r is Ok ==> final(self).registered() && final(self).reg_token() == token.0,   // [C05]
         r is Err ==> final(self).registered() == old(self).registered(),
         (*final(self) is Tcp) == (*old(self) is Tcp),
 //@end
@@ -262,7 +280,20 @@ pub struct StdTcpListener { _p: () }
 /// `nonblocking()`: the mode the OS socket is in once the builder is done with it (a PROPHECY name: `set_nonblocking`
 /// acts through `&self`).  The accept loop drains a listener until WouldBlock — a blocking listener would block the
 /// accept thread, and with it every other listener and every wake-up.
-pub uninterp spec fn listener_nonblocking(l: &MioListener) -> bool;
+pub open spec fn listener_nonblocking(l: &MioListener) -> bool {
+    match *l { MioListener::Tcp(x) => x.nonblocking(), MioListener::Uds(x) => x.nonblocking() }
+}
+impl MioTcpListener {
+    pub uninterp spec fn nonblocking(&self) -> bool;
+    /// mio::net::TcpListener::from_std: wraps the OS socket as it is (its blocking mode included)
+    #[verifier::external_body]
+    pub fn from_std(l: StdTcpListener) -> (r: MioTcpListener) ensures r.nonblocking() == l.nonblocking() { unimplemented!() }
+}
+impl MioUnixListener {
+    pub uninterp spec fn nonblocking(&self) -> bool;
+    #[verifier::external_body]
+    pub fn from_std(l: StdUnixListener) -> (r: MioUnixListener) ensures r.nonblocking() == l.nonblocking() { unimplemented!() }
+}
 impl StdTcpListener {
     pub uninterp spec fn nonblocking(&self) -> bool;
     #[verifier::external_body] pub fn set_nonblocking(&self, b: bool) -> (r: io::Result<()>) ensures r is Ok ==> self.nonblocking() == b { unimplemented!() }
@@ -276,11 +307,19 @@ impl vstd::std_specs::convert::FromSpecImpl<StdTcpListener> for MioListener {
     uninterp spec fn from_spec(l: StdTcpListener) -> MioListener;
 }
 impl From<StdTcpListener> for MioListener {
-    #[verifier::external_body] fn from(l: StdTcpListener) -> (r: MioListener) ensures r is Tcp, listener_nonblocking(&r) == l.nonblocking() { unimplemented!() }
+//@extract file=actix-server/src/socket.rs item="impl From<StdTcpListener> for MioListener / fn from" ret=r props=C01,C05 name=socket::from_std_tcp
+//@spec
+    ensures r is Tcp, listener_nonblocking(&r) == lst.nonblocking(),
+//@end
 }
 #[verifier::external_body]
 pub struct StdUnixListener { _p: () }
+/// `impl AsRef<Path>` argument of bind_uds
+#[verifier::external_body]
+pub struct PathLike { _p: () }
+impl PathLike { #[verifier::external_body] pub fn as_ref(&self) -> (r: &Path) { unimplemented!() } }
 impl StdUnixListener {
+    #[verifier::external_body] pub fn bind(p: PathLike) -> (r: io::Result<StdUnixListener>) { unimplemented!() }
     pub uninterp spec fn nonblocking(&self) -> bool;
     #[verifier::external_body] pub fn set_nonblocking(&self, b: bool) -> (r: io::Result<()>) ensures r is Ok ==> self.nonblocking() == b { unimplemented!() }
 }
@@ -291,13 +330,53 @@ impl vstd::std_specs::convert::FromSpecImpl<StdUnixListener> for MioListener {
     uninterp spec fn from_spec(l: StdUnixListener) -> MioListener;
 }
 impl From<StdUnixListener> for MioListener {
-    #[verifier::external_body] fn from(l: StdUnixListener) -> (r: MioListener) ensures r is Uds, listener_nonblocking(&r) == l.nonblocking() { unimplemented!() }
+//@extract file=actix-server/src/socket.rs item="impl From<StdUnixListener> for MioListener / fn from" ret=r props=C01,C05 name=socket::from_std_uds
+//@spec
+    ensures r is Uds, listener_nonblocking(&r) == lst.nonblocking(),
+//@end
 }
-/// builder.rs `bind_addr` (resolves and binds every address; sockets are the OS's): NOT verified
+/// std::net::ToSocketAddrs as far as bind_addr uses it: the resolved addresses (a small number: A-INT)
+impl AddrsLike {
+    pub uninterp spec fn resolved(&self) -> Seq<StdSocketAddr>;
+    #[verifier::external_body]
+    pub fn to_socket_addrs(&self) -> (r: io::Result<Vec<StdSocketAddr>>)
+        ensures r matches Ok(v) ==> v@ == self.resolved() && v@.len() <= 65536,
+    { unimplemented!() }
+}
+impl Clone for StdSocketAddr { #[verifier::external_body] fn clone(&self) -> (r: StdSocketAddr) ensures r == *self { unimplemented!() } }
+impl Copy for StdSocketAddr {}
+impl MioTcpListener {
+    /// the address / backlog the OS socket was created with (socket.rs create_mio_tcp_listener: OS-level, NOT verified)
+    pub uninterp spec fn bound_to(&self) -> StdSocketAddr;
+    pub uninterp spec fn backlog(&self) -> u32;
+}
 #[verifier::external_body]
-pub fn bind_addr(addrs: AddrsLike, backlog: u32, mptcp: &MpTcp) -> (r: io::Result<Vec<MioTcpListener>>)
-    ensures r matches Ok(v) ==> v@.len() <= 65536,      // a name resolves to a small number of addresses (A-INT: token overflow not reachable)
+pub fn create_mio_tcp_listener(addr: StdSocketAddr, backlog: u32, mptcp: &MpTcp) -> (r: io::Result<MioTcpListener>)
+    ensures r matches Ok(l) ==> l.bound_to() == addr && l.backlog() == backlog,
 { unimplemented!() }
+impl IoError {
+    #[verifier::external_body]
+    pub fn new<E>(kind: ErrorKind, e: E) -> (r: IoError) ensures r.spec_kind() == kind { unimplemented!() }
+}
+
+//@extract file=actix-server/src/builder.rs item="fn bind_addr" ret=r props=C01 name=builder::bind_addr sig_replace="pub fn bind_addr<S: ToSocketAddrs>(=>pub fn bind_addr(;;addr: S=>addr: AddrsLike"
+//@replace pattern="let mut sockets = Vec::new();" rule=R15
+let mut sockets: Vec<MioTcpListener> = Vec::new();
+//@spec
+    ensures
+        // Ok means at least one listener; every listener is bound to one of the resolved addresses with the requested
+        // backlog, at most one per address   [C01]
+        r matches Ok(v) ==> 1 <= v@.len() <= addr.resolved().len() && v@.len() <= 65536
+            && forall|k: int| 0 <= k < v@.len() ==> (#[trigger] v@[k]).backlog() == backlog && addr.resolved().contains(v@[k].bound_to()),
+//@loop head="while r9_q.len() > 0"
+        invariant
+            r9_q@.len() + sockets@.len() <= addr.resolved().len(), addr.resolved().len() <= 65536,
+            success == (sockets@.len() > 0),
+            forall|j: int| 0 <= j < r9_q@.len() ==> addr.resolved().contains(#[trigger] r9_q@[j]),
+            forall|k: int| 0 <= k < sockets@.len() ==> (#[trigger] sockets@[k]).backlog() == backlog && addr.resolved().contains(sockets@[k].bound_to()),
+        decreases r9_q@.len(),
+//@end
+
 /// rule R9j: consuming `for x in vec` takes the elements from the front
 #[verifier::external_body]
 pub fn vec_take_first<T>(v: &mut Vec<T>) -> (r: T)
@@ -462,6 +541,20 @@ impl ServerBuilder {
             r matches Ok(b) ==> listener_nonblocking(&b.sockets@[self.token as int].2),   // [C01,C05]
 //@replace pattern="use std::net::{IpAddr, Ipv4Addr};" rule=R15
 use crate::std::net::{IpAddr, Ipv4Addr};
+//@end
+
+//@extract file=actix-server/src/builder.rs item="impl ServerBuilder / fn bind_uds" ret=r props=C01 name=builder::bind_uds sig_replace="pub fn bind_uds<F, U, N>(=>pub fn bind_uds(;;name: N=>name: NameLike;;addr: U=>addr: PathLike;;factory: F=>factory: UserFactory;;where F: ServerServiceFactory<actix_rt::net::UnixStream>, N: AsRef<str>, U: AsRef<std::path::Path>,=> "
+//@replace pattern="std::io::ErrorKind::NotFound" rule=R15
+io::ErrorKind::NotFound
+//@replace pattern="crate::socket::StdUnixListener::bind(addr)" rule=R15
+StdUnixListener::bind(addr)
+//@spec
+    requires self.wf(), self.token < usize::MAX,
+    ensures
+        // a Unix-domain listener bound through the builder is paired with its own token and factory, exactly like one
+        // handed in through listen_uds   [C01]
+        r matches Ok(b) ==> b.wf() && b.token == self.token + 1 && b.sockets@[self.token as int].2 is Uds
+            && listener_nonblocking(&b.sockets@[self.token as int].2),
 //@end
 
 //@extract file=actix-server/src/builder.rs item="impl ServerBuilder / fn bind" ret=r props=C01 name=builder::bind mut_self sig_replace="pub fn bind<F, U, N>(=>pub fn bind(;;name: N=>name: NameLike;;addrs: U=>addrs: AddrsLike;;factory: F=>factory: UserFactory;;where F: ServerServiceFactory<TcpStream>, U: ToSocketAddrs, N: AsRef<str>,=> "
